@@ -46,27 +46,15 @@ def _pinb(x):
     return True if x else False
 
 
-def _concrete(descs, nv):
-    out = []
-    for i in range(3):
-        if i < nv:
-            (s, r, k, c, d) = descs[i]
-            out.append((_pin(s, 1, B["seq_max"]), _pin(r, 0, B["rank_max"]), B["k"],
-                        _pin(c, B["k"] + B["c_lo"], B["k"] + B["c_hi"]), _pinb(d)))
-        else:
-            out.append((0, 0, 0, 0, False))
-    return out
-
-
-def h_servermap(nv: int, s0: int, r0: int, k0: int, c0: int, d0: bool, s1: int, r1: int, k1: int, c1: int, d1: bool,
-                s2: int, r2: int, k2: int, c2: int, d2: bool) -> bool:
+def h_servermap(nv: int, s0: int, r0: int, k0: int, c0: int, d0: int, s1: int, r1: int, k1: int, c1: int, d1: int,
+                s2: int, r2: int, k2: int, c2: int, d2: int) -> bool:
     """
     pre: mm.descriptors_ok(nv, _descs([s0, r0, k0, c0, d0, s1, r1, k1, c1, d1, s2, r2, k2, c2, d2]), B)
     pre: B.get("s0") is None or nv == 0 or s0 == B["s0"]
     post: _ == True
     """
     nv = _pin(nv, 0, B["nv"])
-    descs = _concrete(_descs([s0, r0, k0, c0, d0, s1, r1, k1, c1, d1, s2, r2, k2, c2, d2]), nv)
+    descs = mm.concrete(_descs([s0, r0, k0, c0, d0, s1, r1, k1, c1, d1, s2, r2, k2, c2, d2]), nv, B)
     sm, model = mm.populate(nv, descs)
     rec = mm.recoverable(model)
     unrec = mm.unrecoverable(model)
@@ -149,8 +137,8 @@ def _stop():
     raise _Stop()
 
 
-def h_new_seqnum(nv: int, s0: int, r0: int, k0: int, c0: int, d0: bool, s1: int, r1: int, k1: int, c1: int, d1: bool,
-                 s2: int, r2: int, k2: int, c2: int, d2: bool, mode: int, initial: bool, use_update: bool) -> bool:
+def h_new_seqnum(nv: int, s0: int, r0: int, k0: int, c0: int, d0: int, s1: int, r1: int, k1: int, c1: int, d1: int,
+                 s2: int, r2: int, k2: int, c2: int, d2: int, mode: int, initial: bool, use_update: bool) -> bool:
     """
     pre: mm.descriptors_ok(nv, _descs([s0, r0, k0, c0, d0, s1, r1, k1, c1, d1, s2, r2, k2, c2, d2]), B)
     pre: B.get("s0") is None or nv == 0 or s0 == B["s0"]
@@ -161,7 +149,7 @@ def h_new_seqnum(nv: int, s0: int, r0: int, k0: int, c0: int, d0: bool, s1: int,
     initial = _pinb(initial)
     use_update = _pinb(use_update)
     assume(not (initial and (use_update or nv > 0 or mode > 0)))
-    descs = _concrete(_descs([s0, r0, k0, c0, d0, s1, r1, k1, c1, d1, s2, r2, k2, c2, d2]), nv)
+    descs = mm.concrete(_descs([s0, r0, k0, c0, d0, s1, r1, k1, c1, d1, s2, r2, k2, c2, d2]), nv, B)
     mode = _pin(mode, 0, 2)
     sm, model = mm.populate(nv, descs)
     sm.set_last_update([MODE_WRITE, MODE_CHECK, sm_mod.MODE_REPAIR][mode], 1.0)
@@ -176,7 +164,7 @@ def h_new_seqnum(nv: int, s0: int, r0: int, k0: int, c0: int, d0: bool, s1: int,
     data = pub_mod.MutableData(b"0123456789")
     try:
         if use_update:
-            _update(pub, data, 0, {}, None)
+            _update(pub, data, 0, {}, mm.verinfo(1, 0, B["k"]))      # the version being updated (Publish.update reads its data length)
         else:
             _publish(pub, data)
         return "publish did not reach the node call that follows the sequence number assignment"
@@ -192,4 +180,80 @@ def h_new_seqnum(nv: int, s0: int, r0: int, k0: int, c0: int, d0: bool, s1: int,
             want = v[0] + 1
     if new != want:
         return "new sequence number is not highest observed + 1"
+    return True
+
+
+# ---- MODE_READ: keep querying while a newer version was seen that cannot be recovered yet ---------------
+
+from allmydata.mutable.common import MODE_ANYTHING
+_check_for_done = hlib.strip_logs(sm_mod.ServermapUpdater._check_for_done)
+NOTES.append("ServermapUpdater made with __new__: _send_more_queries/_done are recorders, log is a no-op; only the decision of "
+             "_check_for_done is executed (no queries are sent)")
+
+
+def h_read_keeps_querying(nv: int, s0: int, r0: int, k0: int, c0: int, d0: int, s1: int, r1: int, k1: int, c1: int, d1: int,
+                          s2: int, r2: int, k2: int, c2: int, d2: int,
+                          outstanding: bool, extra: bool, must: bool, running: bool, completed: int, to_query: int) -> bool:
+    """
+    pre: mm.descriptors_ok(nv, _descs([s0, r0, k0, c0, d0, s1, r1, k1, c1, d1, s2, r2, k2, c2, d2]), B)
+    pre: 0 <= completed and 0 <= to_query
+    pre: B.get("gates", False) or (running and not must)
+    post: _ == True
+    """
+    nv = _pin(nv, 0, B["nv"])
+    descs = mm.concrete(_descs([s0, r0, k0, c0, d0, s1, r1, k1, c1, d1, s2, r2, k2, c2, d2]), nv, B)
+    sm, model = mm.populate(nv, descs)
+    u = sm_mod.ServermapUpdater.__new__(sm_mod.ServermapUpdater)
+    calls = []
+    u._send_more_queries = lambda n: calls.append(("more", n))
+    u._done = lambda: calls.append(("done",))
+    u.log = lambda *a, **kw: 0
+    u.mode = MODE_READ
+    u._servermap = sm
+    u._running = _pinb(running)
+    u._must_query = set([mm.Srv("must")]) if must else set()
+    u._queries_outstanding = set([mm.Srv("out")]) if outstanding else set()
+    u.extra_servers = [mm.Srv("extra")] if extra else []
+    u._queries_completed = completed
+    u.num_servers_to_query = to_query
+    u._need_privkey = False
+    u.full_serverlist = []
+    u._bad_servers = set()
+    u._empty_servers = set()
+    u._servers_with_shares = set()
+    u.EPSILON = 3
+    _check_for_done(u, None)
+    if len(calls) > 1:
+        return "more than one decision taken"
+    decision = calls[0][0] if calls else "wait"
+    rec, unrec = mm.recoverable(model), mm.unrecoverable(model)
+    newer_unrecoverable = False
+    for v in unrec:
+        above = True
+        for w in rec:
+            if w[0] >= v[0]:
+                above = False
+        if above:
+            newer_unrecoverable = True        # (also when nothing at all is recoverable)
+    can_ask_more = bool(outstanding or extra)
+    if not running:
+        return True if decision == "wait" else "a stopped updater took a decision"
+    if must:
+        # answers from servers known to hold shares are still pending
+        return True if decision == "wait" else "decided while must-query servers have not answered"
+    if decision == "done":
+        if can_ask_more:
+            if not rec:
+                return "MODE_READ stopped although nothing is recoverable and servers are left to ask"
+            if newer_unrecoverable:
+                return "MODE_READ stopped although a newer version was seen that cannot be recovered yet and servers are left to ask"
+            if completed < to_query:
+                return "MODE_READ stopped before the planned number of servers had answered"
+    else:
+        if not can_ask_more:
+            return "nobody left to ask but the update does not finish"
+        if rec and not newer_unrecoverable and completed >= to_query and decision != "done":
+            return "MODE_READ keeps going although the newest version seen is recoverable"
+        if decision != "more":
+            return "neither finishing nor asking more servers"
     return True
